@@ -19,12 +19,14 @@ FM32 == INSTANCE FindMatches WITH Variant <- "fixed", AllowPartialFirst <- TRUE,
 FM2 == INSTANCE FindMatches WITH Variant <- "fixed", AllowPartialFirst <- TRUE, MaxFiles <- 0, MaxSize <- 0, P <- 2,
                                  Classes <- {}, sizes <- 0, cands <- 0, dest <- 0, dsize <- 0, copied <- 0,
                                  piece <- 0, pc <- 0
+\* r.stream: the whole v1 list in metafile order - payload files (f = index into r.files) and padding
+\* entries (f = 0), each with its length
 ImplAfter(r) ==
-    LET ord == r.stream_order
-        sz == [k \in DOMAIN ord |-> r.files[ord[k]].length]
-        cd == [k \in DOMAIN ord |-> r.files[ord[k]].cands]
+    LET st == r.stream
+        sz == [k \in DOMAIN st |-> st[k].len]
+        cd == [k \in DOMAIN st |-> IF st[k].f = 0 THEN <<"pad">> ELSE r.files[st[k].f].cands]
         d == IF r.P = 16384 THEN FM16!MatchAll(sz, cd) ELSE IF r.P = 2 THEN FM2!MatchAll(sz, cd) ELSE FM32!MatchAll(sz, cd)
-        pos(f) == CHOOSE k \in DOMAIN ord : ord[k] = f
+        pos(f) == CHOOSE k \in DOMAIN st : st[k].f = f
     IN [f \in DOMAIN r.files |->
           LET k == pos(f) IN
           IF d[k] = 0 THEN "absent"
